@@ -470,7 +470,11 @@ func parentMain(p Property, env *Env) int {
 		cmd := exec.Command(os.Args[0], args...)
 		cmd.Stdout = Err // worker chatter must never look like a verdict
 		cmd.Stderr = Err
-		cmd.Env = append(os.Environ(), "GOMAXPROCS=2")
+		gmp := os.Getenv("VERIF_WORKER_GOMAXPROCS")
+		if gmp == "" {
+			gmp = "2"
+		}
+		cmd.Env = append(os.Environ(), "GOMAXPROCS="+gmp)
 		if err := cmd.Start(); err != nil {
 			Harnessf("start worker: %v", err)
 		}
